@@ -330,7 +330,8 @@ func (w *World) computeSig(root *ssa.Function) funcSig {
 			// what runs only on one side: the blocks that side can reach and the other side cannot (for `a || b` the
 			// then-block has two predecessors, so dominance alone would see nothing)
 			side := func(s, o *ssa.BasicBlock) []string {
-				rs, ro := blockReach(s, nil), blockReach(o, nil)
+				// within one pass of the enclosing loops: through the back edge each side reaches the other's code
+				rs, ro := passReach(s), passReach(o)
 				rs[s], ro[o] = true, true
 				return w.effectsIn(fn, func(x *ssa.BasicBlock) bool { return rs[x] && !ro[x] }, own, true)
 			}
